@@ -115,7 +115,8 @@ def main():
                             res['refused'] += 1
                 else:
                     got = (o.acquire() if mode == 'acq' else
-                           o.acquire(blocking=False) if mode == 'nb' else o.acquire(timeout=0.05))
+                           o.acquire(blocking=False) if mode == 'nb' else
+                           o.acquire(timeout=0) if mode == 'timed0' else o.acquire(timeout=0.05))
                     if got is True:
                         try:
                             section(rng, who)
